@@ -139,8 +139,10 @@ def _detect_alleles(variants, var_progress, first, bam_read):
         elif cigar_op == 5 or cigar_op == 6:  # H or P (hard clipping or padding)
             continue
 
-        # Queue all variants that start within the ref span of the cigar operation
-        ref_end = ref_pos + length
+        # Queue all variants that start within the ref span of the cigar operation.
+        # An insertion does not consume reference bases: it only concerns (insertion) variants
+        # located exactly at its position, not those within 'length' bases to the right of it
+        ref_end = ref_pos + length if cigar_op != 1 else ref_pos + 1
         while j < n:
             var_id = var_progress[j].variant_id
             var_pos = variants[var_id].position
